@@ -465,9 +465,38 @@ def r8(ctx, facts):
         raise AnchorLost("no ProcessedRoutingInfo construction that resolves the effective preference found")
 
 
+def r9(ctx, facts):
+    r = ctx.rule("R9", "the node stages of pick() (local rack, local datacenter, everything) are tried whether or not the request has a token: a token only ADDS the replica stages in front", floor=2)
+    from ..util import dj_of
+    b = facts.one(r"DefaultPolicy as .*LoadBalancingPolicy>::pick$")
+    dj = dj_of(b, facts)
+    sites = [(bb, c) for bb, c in b.calls() if bb in b.live_blocks and (c.name or c.decl or "").endswith("DefaultPolicy::pick_node")]
+    if len(sites) < 2:
+        raise AnchorLost("pick(): expected at least two pick_node stages, found %d" % len(sites))
+    for i, (bb, c) in enumerate(sorted(sites, key=lambda x: (x[1].span.line, x[1].span.col))):
+        sts = dj.states_at(bb)
+        with_token = without = False
+        for st in sts:
+            vals = [v for k, v in st.items() if k[0] == "disc" and k[1][1][-1:] == ("token_with_strategy",)]
+            if not vals:
+                with_token = without = True
+                continue
+            v = vals[0]
+            if v[0] == "in":
+                with_token |= 1 in v[1]
+                without |= 0 in v[1]
+            else:
+                with_token = without = True
+        r.instance("node-stage-%d-with-and-without-token" % i, with_token and without,
+                   "this pick_node stage is reachable only %s: a request %s never gets a live node of this group as its first target although "
+                   "the fallback plan ranks the group here (local rack before the rest of the datacenter, live before down)"
+                   % (("without a token", "with a token whose replicas are all down or filtered") if not with_token else ("with a token", "without a token")),
+                   c.span)
+
+
 def check(ctx):
     facts = inline_view(ctx.facts("default"))
-    for fn in (r1, r2, r3, r4, r5, r6, r7, r8):
+    for fn in (r1, r2, r3, r4, r5, r6, r7, r8, r9):
         try:
             fn(ctx, facts)
         except AnchorLost as ex:
